@@ -211,6 +211,13 @@ impl C11 {
                 3 => {
                     ids.push(s.send("workspace/symbol", json!({"query": ""})));
                     script.push("symbols".into());
+                    // now and then a well-typed notification that changes nothing (no content changes):
+                    // whatever it does to the server, later edits must still be applied
+                    if rng.chance(1, 4) {
+                        let uri = s.uri(k);
+                        s.notify("textDocument/didChange", json!({"textDocument": {"uri": uri, "version": 9}, "contentChanges": []}));
+                        script.push("empty didChange".into());
+                    }
                 }
                 _ => {
                     let uri = s.uri(k);
@@ -244,8 +251,13 @@ impl C11 {
             }
         }
         let evs = lsp::events_since(0);
-        if let Some(Ev::LoopPanicked(m)) = evs.iter().find(|e| matches!(e, Ev::LoopPanicked(_))) {
-            rep.violate("loop-thread-panicked", "flood", m.clone(), replay.clone());
+        // the loop thread may reject the empty didChange (it carries no edit); any other panic loses an edit
+        let empties = script.iter().filter(|l| *l == "empty didChange").count();
+        let panics: Vec<&Ev> = evs.iter().filter(|e| matches!(e, Ev::LoopPanicked(_))).collect();
+        if panics.len() > empties {
+            if let Some(Ev::LoopPanicked(m)) = panics.first() {
+                rep.violate("loop-thread-panicked", "flood", m.clone(), replay.clone());
+            }
         }
         // distinct interleavings observed: order of started/applied events
         let order: Vec<String> = evs
